@@ -200,3 +200,109 @@ Proof.
   intros fuel. rewrite ser_fuel. reflexivity.
 Qed.
 Print Assumptions custom_nested_object_refuted.
+
+(* =========================================================================================== *)
+(* The JSON TEXT codec inside the model (Codec/JsonText.v): json.dumps / json.dumps(indent=2) / json.loads *)
+(* =========================================================================================== *)
+From Bardic Require Import JsonText JsonTextProofs.
+
+(* ---- C06 / C05 / C12 / C01: the JSON text codec (json.dumps, json.dumps(indent=2), json.loads) ---- *)
+
+Theorem json_text_roundtrip : forall j, keys_distinct j -> loads (dumps j) = Some (json_rt j).
+Proof. exact loads_dumps_rt. Qed.
+Print Assumptions json_text_roundtrip.
+
+Theorem json_text_roundtrip_indent2 : forall j, keys_distinct j -> loads (dumps_indent2 j) = Some (json_rt j).
+Proof. exact loads_dumps_indent2_rt. Qed.
+Print Assumptions json_text_roundtrip_indent2.
+
+Theorem json_text_roundtrip_ascii : forall j, ascii_json j -> keys_distinct j -> loads (dumps j) = Some j.
+Proof. exact loads_dumps. Qed.
+Print Assumptions json_text_roundtrip_ascii.
+
+Theorem json_text_roundtrip_any_tree : forall j, loads (dumps j) = Some (normalize j).
+Proof. exact loads_dumps_normalize. Qed.
+Print Assumptions json_text_roundtrip_any_tree.
+
+Theorem json_text_injective : forall a b, dumps a = dumps b -> a = b.
+Proof. exact dumps_injective. Qed.
+Print Assumptions json_text_injective.
+
+Theorem json_text_indent2_injective : forall a b, dumps_indent2 a = dumps_indent2 b -> a = b.
+Proof. exact dumps_indent2_injective. Qed.
+Print Assumptions json_text_indent2_injective.
+
+Theorem json_text_fuel_enough : forall s n, String.length s <= n -> pvalue n s = pvalue (String.length s) s.
+Proof. exact pvalue_fuel_enough. Qed.
+Print Assumptions json_text_fuel_enough.
+
+Theorem json_loads_gives_dicts : forall s j, loads s = Some j -> keys_distinct j.
+Proof. exact loads_kd. Qed.
+Print Assumptions json_loads_gives_dicts.
+
+Theorem json_text_is_ascii : forall j, str_all printable (dumps j) = true.
+Proof. exact dumps_printable. Qed.
+Print Assumptions json_text_is_ascii.
+
+Theorem json_text_indent2_is_ascii : forall j, str_all printable_nl (dumps_indent2 j) = true.
+Proof. exact dumps_indent2_printable. Qed.
+Print Assumptions json_text_indent2_is_ascii.
+
+(* C06: the serialised value, written as text and read back, is the tree the codec theorems call json_rt j *)
+Theorem ser_text_roundtrip_c06 : forall cf cx fuel v j,
+  ctx_kd cx -> value_kd v -> ser fuel cf cx v = Some j -> loads (dumps j) = Some (json_rt j).
+Proof. exact ser_text_roundtrip. Qed.
+Print Assumptions ser_text_roundtrip_c06.
+
+(* ---- non-vacuity ---- *)
+Definition sample_doc : json :=
+  JObj [("version", JStr "0.1.0");
+        ("current_passage_id", JNull);
+        ("state", JObj [("hp", JInt (-3)); ("big", JInt 1180591620717411303424);
+                        ("name", JStr (String (ascii_of_nat 10) (String (ascii_of_nat 127) "say ""hi""\/")));
+                        ("hero", JObj [("_type", JStr "Hero"); ("_module", JStr "game"); ("_data", JObj []); ("_custom", JBool true)])]);
+        ("used_choices", JList [JStr "a"; JStr ""]);
+        ("hooks", JObj []); ("flags", JList [JBool true; JBool false; JList []])].
+
+Ltac nodup_tac := repeat (constructor; [cbn [In]; intuition discriminate|]); try constructor.
+
+Example sample_doc_kd : keys_distinct sample_doc.
+Proof. cbn [sample_doc keys_distinct allPi allP map fst]. repeat split; nodup_tac. Qed.
+
+Example sample_doc_text :
+  dumps sample_doc =
+  "{""version"": ""0.1.0"", ""current_passage_id"": null, ""state"": {""hp"": -3, ""big"": 1180591620717411303424, ""name"": ""\n\u007fsay \""hi\""\\/"", ""hero"": {""_type"": ""Hero"", ""_module"": ""game"", ""_data"": {}, ""_custom"": true}}, ""used_choices"": [""a"", """"], ""hooks"": {}, ""flags"": [true, false, []]}"
+  /\ loads (dumps sample_doc) = Some sample_doc /\ loads (dumps_indent2 sample_doc) = Some sample_doc.
+Proof. vm_compute. repeat split. Qed.
+
+Example sample_indent2_text :
+  dumps_indent2 (JObj [("a", JList [JInt 1; JObj []; JList []]); ("b", JObj [("c", JNull)])]) =
+"{
+  ""a"": [
+    1,
+    {},
+    []
+  ],
+  ""b"": {
+    ""c"": null
+  }
+}".
+Proof. vm_compute. reflexivity. Qed.
+
+(* the hypothesis on keys is needed (such a tree is not a Python dict): json.loads keeps the LAST value at
+   the FIRST position *)
+Example repeated_key_tree : loads (dumps (JObj [("a", JInt 1); ("b", JInt 2); ("a", JInt 3)])) = Some (JObj [("a", JInt 3); ("b", JInt 2)]).
+Proof. vm_compute. reflexivity. Qed.
+
+(* json.loads accepts what json.dumps never writes: free white space, \/ , \uXXXX of either case *)
+Example loads_liberal :
+  loads (String (ascii_of_nat 9) " [ 1 ,-0, ""\u0041\/\u00e9\u00E9"" , { ""k"" : [ ] } ] ")
+  = Some (JList [JInt 1; JInt 0; JStr (String "A" (String "/" (String (ascii_of_nat 233) (String (ascii_of_nat 233) ""))));
+                 JObj [("k", JList [])]]).
+Proof. vm_compute. reflexivity. Qed.
+
+(* and rejects: leading zeros, trailing commas, raw control characters, floats (outside the domain), extra data *)
+Example loads_rejects :
+  map loads ["01"; "[1,]"; "{""a"":1,}"; String """" (String (ascii_of_nat 9) """"); "1.5"; "1e5"; "[] []"; ""; "nul"; """\u0100"""]
+  = [None; None; None; None; None; None; None; None; None; None].
+Proof. vm_compute. reflexivity. Qed.
